@@ -489,16 +489,17 @@ def ops_unit(ctx, unit):
     Hostile values are offered in between; each must be refused and leave no trace."""
     from ombott.response import Response, HTTPResponse
     rng = ctx.rng
-    names = ['X-A', 'X-B', 'Vary', 'Link', 'X-C']
+    names = ['X-A', 'X-B', 'Vary', 'Link', 'X-C', 'Content-Type']
     for si in range(unit['n']):
         r = HTTPResponse('b') if si % 2 else Response()
-        model = {}
+        # what a new response starts with (a default content type) is part of the model
+        model = {k: ([str(x) for x in v] if isinstance(v, list) else [str(v)]) for k, v in r.headers.items()}
         hist = []
         for step in range(rng.randint(3, 16)):
             n = rng.choice(names)
             v = rng.choice(TEXTS) if rng.random() < 0.7 else rng.choice([7, 2.5, True, None])
             sv = str(v)
-            op = rng.choice(['set', 'append', 'append', 'setdefault', 'del', 'clear_name', 'pop', 'hostile', 'copy', 'reads', 'clear_all', 'update_clean', 'headers_copy'])
+            op = rng.choice(['set', 'append', 'append', 'setdefault', 'del', 'clear_name', 'pop', 'hostile', 'copy', 'reads', 'clear_all', 'update_clean', 'headers_copy', 'attr_set', 'attr_del', 'getitem'])
             hist.append((op, n, repr(v)))
             try:
                 if op == 'set':
@@ -510,6 +511,25 @@ def ops_unit(ctx, unit):
                 elif op == 'setdefault':
                     r.headers.setdefault(n, v)
                     model.setdefault(n, [sv])
+                elif op == 'attr_set':
+                    r.content_type = v
+                    model['Content-Type'] = [sv]
+                    ctx.count('header_attribute_set_or_deleted')
+                elif op == 'attr_del':
+                    if 'Content-Type' in model:
+                        del r.content_type
+                        del model['Content-Type']
+                        ctx.count('header_attribute_set_or_deleted')
+                    if r.content_type != '':
+                        ctx.violation('header-reads-differ-from-model', f'history {hist}: content_type after deletion {r.content_type!r}', {'unit': {'kind': 'note', 'history': hist}})
+                        break
+                elif op == 'getitem':
+                    if n in model:
+                        got = r.headers[n]
+                        want_get = model[n][0] if len(model[n]) == 1 else model[n]
+                        if got != want_get:
+                            ctx.violation('header-reads-differ-from-model', f'history {hist}: headers[{n!r}] = {got!r}, model {want_get!r}', {'unit': {'kind': 'note', 'history': hist}})
+                            break
                 elif op == 'del':
                     if n in model:
                         del r.headers[n]
@@ -570,6 +590,8 @@ def ops_unit(ctx, unit):
             hl = r.headerlist
             em = [(k, val.encode('latin1').decode('utf8')) for k, val in hl if k in names or k == 'X-New']
             want = [(k, x) for k, vs in model.items() for x in vs]
+            if 'Content-Type' not in model:
+                want.append(('Content-Type', r.default_content_type))      # a response without a content type of its own is sent with the default one
             ctx.count('header_lists_compared_with_model')
             ctx.case(('ops', si, step), nontrivial=True)
             if em != want:
